@@ -12,7 +12,8 @@ var verifTolerances = []float64{2.0, 1.0, 1.5}
 // verifGradientState: GradientLimit from the real constructor (symbolic min/max/initial/probe
 // interval, smoothing and tolerance from the stated constant lists, default sqrt queue function),
 // then an arbitrary state under the invariant
-//   minLimit <= est <= max(maxLimit, initial)*(1+2^-40), 1 <= counter < 2*interval (if enabled), baseline >= 0.
+//
+//	minLimit <= est <= max(maxLimit, initial)*(1+2^-40), 1 <= counter < 2*interval (if enabled), baseline >= 0.
 func verifGradientState(smallRTT bool) (l *GradientLimit, hi int) {
 	initial := verif.Int("initial")
 	minL := verif.Int("min")
